@@ -351,5 +351,25 @@ def fill(claim, na):
         "Trusted: Cython lowering; float round trip of distances.",
         "DESIGN.md section 2, C19",
     )
-    for p in ["C11", "C15", "C16"]:
+    claim(
+        "C11",
+        "table evaluation against the SAM oracle, per-branch def-use of the reference/segment "
+        "pointers, mask-definition and gap-character agreement, coupled permutation, parameter "
+        "liveness (custom ast analysis; multiple.pyx lowered)",
+        "NARROW. Decides: the CIGAR symbol table is total, injective and carries the SAM codes, the "
+        "reverse table is derived from it; for every operation the writer can emit the reader has "
+        "a branch that advances the reference/segment pointers exactly as SAM's consumes table says "
+        "and writes position or gap into the matching trace column, clips are masked, unsupported "
+        "operations reach the raising else, the row index advances for every operation; the "
+        "writer's insertion/deletion masks, clip choice, '='/'X' refinement, intron intervals, clip "
+        "lengths and run-length aggregation; '-' is the gap character on both sides and gaps are "
+        "-1 in trace and code matrix; terminal-gap bounds; every parameter of the conversion "
+        "helpers is read, the gap state of score() is reset per sequence, a column is identical "
+        "only if all rows agree; align_multiple applies one permutation to rows and trace columns "
+        "and turns the neutral gap symbol into -1. NOT decided: trace validity of produced "
+        "alignments, numeric identity/score values, MSA content.",
+        "Trusted: SAM v1 operation table; idiom tables in sa/props/C11.py.",
+        "DESIGN.md section 2, C11",
+    )
+    for p in ["C15", "C16"]:
         na(p, PENDING)
